@@ -1208,6 +1208,70 @@ func foldOnlyValidRunes(p *core.Prog, root *ssa.Function) string {
 		}
 		dfs(start, [2]bool{}, map[*ssa.BasicBlock]bool{})
 	}
+	if bad != "" {
+		return bad
+	}
+	// nothing is skipped: between decoding the two leading runes and moving on to the rest of the strings, every
+	// path compares the two leading segments — by the folding comparison, or byte for byte (the branch for invalid
+	// bytes). A branch that just moves on takes any two invalid bytes for equal.
+	isCompare := func(b *ssa.BasicBlock) bool {
+		for _, ins := range b.Instrs {
+			switch x := ins.(type) {
+			case *ssa.Call:
+				for _, tg := range targets {
+					if x == tg {
+						return true
+					}
+				}
+			case *ssa.BinOp:
+				if x.Op != token.EQL && x.Op != token.NEQ {
+					continue
+				}
+				_, sx := x.X.(*ssa.Slice)
+				_, sy := x.Y.(*ssa.Slice)
+				if sx && sy {
+					return true
+				}
+			}
+		}
+		return false
+	}
+	var advance []*ssa.BasicBlock
+	core.EachInstr(host, func(i ssa.Instruction) {
+		sl, ok := i.(*ssa.Slice)
+		if !ok || sl.Low == nil || sl.High != nil {
+			return
+		}
+		// s[size:] with size the second result of a decode
+		if ex, isEx := sl.Low.(*ssa.Extract); isEx && ex.Index == 1 {
+			for _, d := range decs {
+				if ex.Tuple == ssa.Value(d) {
+					advance = append(advance, sl.Block())
+				}
+			}
+		}
+	})
+	if len(advance) > 0 {
+		seen := map[*ssa.BasicBlock]bool{}
+		stack := []*ssa.BasicBlock{start}
+		for len(stack) > 0 {
+			b := stack[len(stack)-1]
+			stack = stack[:len(stack)-1]
+			if seen[b] {
+				continue
+			}
+			seen[b] = true
+			if isCompare(b) {
+				continue // paths through a comparison are fine
+			}
+			for _, a := range advance {
+				if b == a && b != start {
+					return "the folding helper moves on to the rest of the two strings (" + p.Pos(posOf(b.Instrs[0], host)) + ") along a path that never compared their leading segments: two lone invalid bytes are taken for equal whatever they are (\"\\xff\" matches \"\\xfe\")"
+				}
+			}
+			stack = append(stack, b.Succs...)
+		}
+	}
 	return bad
 }
 
